@@ -10,7 +10,6 @@ involution.  The key schedule plays no role: decryption uses the same round-key 
 Core Lean only; no `native_decide`.
 -/
 import SpsdkVerif.Crypto.Aes
-import SpsdkVerif.Proofs.Crypto
 
 namespace SpsdkVerif.Crypto.Aes
 open SpsdkVerif SpsdkVerif.Crypto
@@ -213,10 +212,17 @@ theorem mixColumns_invMixColumns (s : Bytes) : mixColumns (invMixColumns s) = s 
     · exact absurd rfl (h _ _ _ _ _ _ _ _ _ _ _ _ _ _ _ _)
     · rfl
 
-theorem addRoundKey_eq (s rk : Bytes) : addRoundKey s rk = xorBytes s rk := rfl
+/-- (this file deliberately does not import Proofs/Crypto.lean, so that it is rebuilt only when Aes.lean changes) -/
+theorem addRoundKey_cancel : ∀ (s rk : Bytes), s.length ≤ rk.length → addRoundKey (addRoundKey s rk) rk = s
+  | [], _, _ => by simp [addRoundKey]
+  | x :: a, [], h => by simp at h
+  | x :: a, y :: b, h => by
+    have ih := addRoundKey_cancel a b (by simpa using h)
+    simp only [addRoundKey, List.zipWith_cons_cons] at ih ⊢
+    rw [ih, UInt8.xor_assoc, UInt8.xor_self, UInt8.xor_zero]
 
-theorem addRoundKey_cancel (s rk : Bytes) (h : s.length ≤ rk.length) : addRoundKey (addRoundKey s rk) rk = s :=
-  xorBytes_cancel s rk h
+theorem addRoundKey_len (s rk : Bytes) : (addRoundKey s rk).length = min s.length rk.length := by
+  simp [addRoundKey]
 
 /-! ### lengths -/
 
@@ -293,7 +299,7 @@ theorem encCore_length (k0 : Bytes) (mids : List Bytes) (kL b : Bytes) (h0 : k0.
     (encCore k0 mids kL b).length = 16 := by
   have := foldl_encRound_length mids (addRoundKey b k0) (addRoundKey_length b k0 h0 hb) hm
   unfold encCore
-  rw [addRoundKey_eq, xorBytes_length, shiftRows_length, subBytes_length, this, hL]; rfl
+  rw [addRoundKey_len, shiftRows_length, subBytes_length, this, hL]; rfl
 
 theorem decCore_length (k0 : Bytes) (mids : List Bytes) (kL b : Bytes) (h0 : k0.length = 16)
     (hm : ∀ k ∈ mids, k.length = 16) (hL : kL.length = 16) (hb : b.length = 16) :
@@ -301,7 +307,7 @@ theorem decCore_length (k0 : Bytes) (mids : List Bytes) (kL b : Bytes) (h0 : k0.
   have h1 : (invSubBytes (invShiftRows (addRoundKey b kL))).length = 16 := by simp [addRoundKey, hb, hL]
   have := foldr_decRound_length mids _ h1 hm
   unfold decCore
-  rw [addRoundKey_eq, xorBytes_length, this, h0]; rfl
+  rw [addRoundKey_len, this, h0]; rfl
 
 theorem decCore_encCore (k0 : Bytes) (mids : List Bytes) (kL b : Bytes) (h0 : k0.length = 16)
     (hm : ∀ k ∈ mids, k.length = 16) (hL : kL.length = 16) (hb : b.length = 16) :
